@@ -97,6 +97,14 @@ def renderErr : SchemaErr → String
   | .implementingNonInterface t i => s!"(ImplementingNonInterface {t} {i})"
   | .duplicateFieldDefinition t f => s!"(DuplicateFieldDefinition {t} {f})"
   | .duplicateTypeDefinition t => s!"(DuplicateTypeOrInterfaceDefinition {t})"
+  | .duplicateDirectiveDefinition n => s!"(DuplicateDirectiveDefinition {n})"
+  | .duplicateScalarDefinition n => s!"(DuplicateScalarDefinition {n})"
+  | .duplicateSchemaDefinition => "(DuplicateSchemaDefinition)"
+  | .missingSchemaDefinition => "(MissingSchemaDefinition)"
+  | .undefinedQueryType n => s!"(UndefinedQueryType {n})"
+  | .queryTypeNotAnObject n => s!"(QueryTypeNotAnObject {n})"
+  | .builtinScalarRedefinition n => s!"(BuiltinScalarRedefinition {n})"
+  | .duplicateFieldParameterDefinition t f p => s!"(DuplicateFieldParameterDefinition {t} {f} {p})"
 
 /-- Strings sorted by byte order (rendered errors / rows are ASCII). -/
 def sortStrings (l : List String) : List String :=
